@@ -12,7 +12,7 @@ import itertools
 import c06_build as cb
 
 ID = "C06"
-TABLES = ["fn_define_wrap"]
+TABLES = ["fn_define_wrap", "fn_setters_convert", "fn_setters_frozen"]
 RULE = ("corpus, then the definition-time table COMPLETELY (api incl. attrs.frozen x frozen base / hooked mutable base x frozen= x "
         "own __setattr__ x auto_detect x class-level {None, NO_OP, hook, validate, [], [convert]} x field-level {None, NO_OP, hook, "
         "[], validate} x converter x the hooked field's {init=True, init=False without default, init=False with default}: one case "
